@@ -15,7 +15,7 @@ ASSUMPTIONS = ["hextile colours are carried over from the last tile as RFC 6143 
                "streams rely on it, half re-specify as libvncserver does); a conforming encoder re-specifies the foreground after a "
                "coloured-subrects tile (the strict reading: the client carries the last subrectangle's colour on instead)",
                "with a local cursor the comparison is on callbacks only (cursor compositing is the option's effect)"]
-EXTRA_VO = ["Proofs/RfbTie.vo"]
+EXTRA_VO = ["Proofs/RfbTieMessages.vo"]
 
 
 def paint_events(fmt, events):
